@@ -32,7 +32,10 @@ def decorate(p, rng, runnable):
     p.precision = rng.choice([1e-8, 1e-10, 1.0000000000000002e-9])
     p.minangle = rng.choice([30.0, 25.5, 1.0, 33.8]) if not runnable else rng.choice([30.0, 25.5, 20.0])
     p.depth = rng.choice([1.0, 2.5, 0.001, 100.0])
-    p.comment = rng.choice(["generated", 'say "hello" twice', "", "trailing blank ", "a = b [c] <d>"])
+    # (FEMM 4.2 writes a problem note of several lines on ONE line, each line break as the two characters backslash-n)
+    p.comment = rng.choice(["generated", 'say "hello" twice', "", "trailing blank ", "a = b [c] <d>",
+                            "Coil study, rev C\\nair gap 0.5 mm\\nsee report 12/2016", "two lines\\nsecond line",
+                            "Coil study, rev C\\nair gap 0.5 mm\\nsee report 12/2016"])
     p.smartmesh = rng.choice([None, 0, 1])
     p.forcemaxmesh = rng.choice([None, 0, 1])
     if k == "m":
